@@ -2,6 +2,9 @@
 """Regenerates MANIFEST.json from the table below (kept valid at all times)."""
 import json, sys
 CLAIMED = {
+ "C07": dict(level="fault_enumeration", tech="scenario-based fault enumeration over generated token pairs: replay, re-attribution, message and wire manipulation of third-party blocks, with RefCrypto and RefAuthz oracles",
+   text="For generated pairs of tokens (other root, same root, sibling attenuation), a position, third-party contents and both external key algorithms: the honest flow must work identically on both API paths and its external signature must verify independently over (payload, previous signature); the response is replayed at every other position of both tokens through both APIs, re-attributed, manipulated (8 response edits raw and base64, 3 request edits) and the resulting token is mutated on the wire (14 kinds at every block); nothing but the honest block at its place may be accepted / verify. Carrier tables are unchanged, the block prints as its author wrote it and its facts are visible exactly to scopes naming its key (RefAuthz).",
+   note="UnverifiedBiscuit::append_third_party does not verify at append time by design: the resulting token must fail verification; Biscuit::append_third_party has no byte-level entry, so response edits go through the unverified API", ref="4 C07"),
  "C17": dict(level="exploration", tech="round-trip property-based testing of every key encoding + exhaustive single-fault enumeration (truncation, extension, bit flip) on signatures and raw keys, with the primitive crates as independent decoders",
    text="For generated keys of both algorithms and messages of 0-300 bytes: 16 private-key and 9 public-key encode/decode paths must return the same key and the public key derived independently; a signature verifies exactly under (key, message) and fails for another key, another message and every truncation, extension and single-bit flip; every truncation, extension and single-bit flip of the raw public key (also through the string and protobuf forms), sampled corruptions of private keys, DER and PEM, tag swaps and cross-algorithm decoders give an error or a key an independent decoder also reads; no decoder panics.",
    note="ed25519-dalek / p256 are the trusted base and the independent decoders; Signature values need the guarded re-export hook", ref="4 C17"),
